@@ -134,6 +134,10 @@ def postprocess_attributes(
     if retain_names is None:
         retain_names = numpoly.get_options()["retain_names"]
     if not retain_names:
+        if names is None:
+            # the columns are named by position: name them before pruning
+            varname = numpoly.get_options()["default_varname"]
+            names = numpoly.symbols(f"{varname}:{exponents.shape[1]}").names
         exponents, names = remove_redundant_names(exponents, names)
 
     exponents_, count = numpy.unique(exponents, return_counts=True, axis=0)
